@@ -73,6 +73,8 @@ class C13(PropBase):
             if c % 5 == 0:
                 forced.append(jl_big)
             picks = forced + [rng.choice(jl) for _ in range(rng.randrange(1, 15))]
+            if c == 1:
+                picks = forced + list(jl)          # every kind of junk line once (the other streams draw from them)
             for j in picks:
                 pos = rng.randrange(len(mixed) + 1)
                 mixed.insert(pos, j)
